@@ -27,7 +27,8 @@ RULE = ("case = (sampler configuration, f output kind {scalar, vector, tuple}, w
 RULE_ADDED = ('Added later: parameters shared between f and log p, mh drift plane, step functions returning a reuse'
               'd buffer, integer-valued (int64) chain state, call-order plane in fresh interpreters. Round 4: integ'
               'rands returning the sample itself (fout ident) or a tensor the caller holds (constant integrand; mus'
-              't stay untouched).')
+              't stay untouched). Round 5: bck_options carrying the keywords of the sampler (nsamples, nburnout, step_size, l'
+              'b, ub) with other values than the forward options - everything judged as without them.')
 ASSUMPTIONS = [
     "an evaluation of f that carries zero weight in the result and happens at x0 is the documented shape probe",
     "mhcustom: the sample sequence must be a contiguous run of nsamples chain states starting at index nburnout-1, "
@@ -103,6 +104,16 @@ def cases(tier, seed):
                 c = dict(sc)
                 c.update({"fout": fo, "fkind": "explicit", "pkind": "explicit", "unused": "none", "linear": "none",
                           "order": order, "loss": loss})
+                add(c)
+    # block A': bck_options carrying the sampler's keywords with other values (must not reach the forward sampling)
+    for sc in _sampler_cfgs_all():
+        if sc.get("stepmode"):
+            continue
+        for fo in ("scalar", "tuple"):
+            for bck in (1, 2):
+                c = dict(sc)
+                c.update({"fout": fo, "fkind": "explicit", "pkind": "explicit", "unused": "none", "linear": "none",
+                          "order": 2, "loss": "sq", "bck": bck})
                 add(c)
     # block D: mh continues from the burned-in state (drift density, see _run_mh_drift)
     for (ns, nb) in ((5, 40), (1, 25), (12, 60)):
@@ -415,10 +426,24 @@ def run_case(cfg):
         method = "mh"
         opts = {"nsamples": ns, "nburnout": nbo, "step_size": cfg["step"]}
 
+    kw = {}
+    if cfg.get("bck"):
+        # options of the backward pass that carry the sampler's own keywords with OTHER values: they are documented
+        # to affect the backward operation only, so samples, weights, value and gradients must be those of the
+        # forward options
+        bo = {"nsamples": ns + 2 if cfg["bck"] == 1 else max(1, ns - 1)}
+        if sampler == "dummy1d":
+            bo.update({"lb": -0.5, "ub": 0.5})
+        else:
+            bo["nburnout"] = nbo + 1
+            if sampler == "mh":
+                bo["step_size"] = 0.11
+        kw["bck_options"] = bo
+
     def run(f, fparams):
         if sampler == "mh":
             torch.manual_seed(1000 + cfg["mseed"])
-        return call(mcquad, f, pfcn, x0, fparams=fparams, pparams=tuple(ppar), method=method, **opts)
+        return call(mcquad, f, pfcn, x0, fparams=fparams, pparams=tuple(ppar), method=method, **opts, **kw)
 
     def clear():
         for k in logs:
